@@ -552,9 +552,11 @@ class TensorDictSequential(TensorDictModule):
         if isinstance(self.module, nn.ModuleList):
             return type(self)(*modules)
         else:
-            keys = [key for key in self.module if self.module[key] in modules]
+            # nested sequences have been replaced by their sliced copies: name the kept
+            # modules by position, not by identity
+            names = list(self.module.keys())
             modules_dict = collections.OrderedDict(
-                **{key: val for key, val in _zip_strict(keys, modules)}
+                (names[i], module_list[i]) for i in id_to_keep
             )
             return type(self)(modules_dict)
 
